@@ -170,12 +170,13 @@ CATALOGUE = [
     dict(id="m14_sync_skips_accessors", prop="C14", file="ak/color.py",
          old="""        self.register_in_colors_conf(colors_conf)
         for accessor_name, synt_id in self._LOCAL_SYNTAX.items():
-            setattr(self, accessor_name, colors_conf.get_color(synt_id))
+            color_fmt = colors_conf.get_color(synt_id)
 """,
-         new="""        if not colors_conf.color_conf_component_is_registered(type(self)):
-            self.register_in_colors_conf(colors_conf)
-            for accessor_name, synt_id in self._LOCAL_SYNTAX.items():
-                setattr(self, accessor_name, colors_conf.get_color(synt_id))
+         new="""        if colors_conf.color_conf_component_is_registered(type(self)):
+            return
+        self.register_in_colors_conf(colors_conf)
+        for accessor_name, synt_id in self._LOCAL_SYNTAX.items():
+            color_fmt = colors_conf.get_color(synt_id)
 """, note="a synced palette is refreshed only the first time it meets a configuration"),
     dict(id="m14_synced_report_stale", prop="C14", file="ak/color.py",
          old="""            color_fmt = colors_conf.get_color(synt_id)
@@ -258,12 +259,13 @@ CATALOGUE = [
     dict(id="m10_synced_palette_stale", prop="C10", file="ak/color.py",
          old="""        self.register_in_colors_conf(colors_conf)
         for accessor_name, synt_id in self._LOCAL_SYNTAX.items():
-            setattr(self, accessor_name, colors_conf.get_color(synt_id))
+            color_fmt = colors_conf.get_color(synt_id)
 """,
-         new="""        if not colors_conf.color_conf_component_is_registered(type(self)):
-            self.register_in_colors_conf(colors_conf)
-            for accessor_name, synt_id in self._LOCAL_SYNTAX.items():
-                setattr(self, accessor_name, colors_conf.get_color(synt_id))
+         new="""        if colors_conf.color_conf_component_is_registered(type(self)):
+            return
+        self.register_in_colors_conf(colors_conf)
+        for accessor_name, synt_id in self._LOCAL_SYNTAX.items():
+            color_fmt = colors_conf.get_color(synt_id)
 """, note="same mutation as m14_sync_skips_accessors seen through renderings with a synced palette object"),
     dict(id="m10_nocolor_returns_cached_colored", prop="C10", suite_catches=True, file="ak/color.py",
          old="            return cls._PALETTE_NO_COLOR\n",
